@@ -889,7 +889,10 @@ func (w *Writer) appendTar(r io.Reader, lossless bool) error {
 	var src io.Reader
 	br := bufio.NewReader(r)
 	if isGzip(br) {
-		zr, _ := gzip.NewReader(br)
+		zr, err := gzip.NewReader(br)
+		if err != nil {
+			return fmt.Errorf("failed to read gzip header of the source: %w", err)
+		}
 		src = zr
 	} else {
 		src = io.Reader(br)
